@@ -39,7 +39,7 @@ ASSUMPTIONS = ['indentwidth is an integer (0-8 in the monitor domain); programs 
                'interior lines of multi-line block comments and long strings are token content, not layout: re-indentations leave them alone',
                'blank lines before the first line of the file are not "separating lines" (the output may start with up to two)']
 CLAIM = dict(
-    text=("Fifteen theorems in Properties/C10.v (Coq, closed under the global context) about fmt_run, the model of the 15-step re.sub "
+    text=("Seventeen theorems in Properties/C10.v (Coq, closed under the global context) about fmt_run, the model of the 15-step re.sub "
           "pipeline of LuaFormatterWriter._get_code_for_spaces, for white-space/comment runs of EVERY length, every indent width and "
           "depth, at the start / middle / end of the file: C10_run_canonical_form (exact line-by-line form of the output), "
           "C10_run_depends_on_norm (runs equal modulo blanks at line edges are formatted identically: re-indentation invariance "
@@ -47,7 +47,9 @@ CLAIM = dict(
           "C10_run_no_trailing_blank, C10_run_blank_lines (never three line feeds in a row), C10_run_end_of_file, "
           "C10_run_keeps_comment_text (only white space moves), C10_run_idempotent (formatting a formatted run changes "
           "nothing); and four theorems about the whole output as a list of writer chunks (C10_indent_partial, C10_first_line_partial, "
-          "C10_shape_partial, C10_reindent_partial) that reduce the whole-program clauses to facts about the writer walk. Regex sources, guards, replacement expressions, order, and the whole function text "
+          "C10_shape_partial, C10_reindent_partial) that reduce the whole-program clauses to facts about the writer walk, and two about "
+          "the model of the walk itself (Model/AstWriter.v): the nesting counter is balanced and never negative "
+          "(C10_walk_indent_balanced, C10_writer_indent_nonneg). Regex sources, guards, replacement expressions, order, and the whole function text "
           "are regenerated from lua.py on every run and pinned. Tie: the extracted model equals the real method on ALL runs of length "
           "<= 5 (thorough 6) over {space,tab,\\n,\\r,-,/,a} x 4 positions x 3 (width,depth), on random long runs, and on every "
           "_get_code_for_spaces call made inside real luafmt runs on generated programs; the extracted holds_C10 (reference reader "
@@ -389,6 +391,7 @@ def _recording_writer():
         class Rec(lua.LuaFormatterWriter):
             calls = None
             link = None      # [(index of the token that follows a non-empty run, _indent passed with the run)]
+            order = None     # [(start, end)] of the calls with a non-empty run, in call order
 
             def _get_code_for_spaces(self, node):
                 start = self._pos
@@ -398,9 +401,33 @@ def _recording_writer():
                                bytes(run), bytes(res)))
                 if Rec.link is not None and self._pos > start and self._pos < len(self._tokens):
                     Rec.link.append((self._pos, self._indent))
+                if Rec.order is not None and self._pos > start:
+                    Rec.order.append((start, self._pos))
                 return res
         _REC['cls'] = Rec
     return _REC['cls']
+
+
+def _chunk_hypotheses(tokens, order):
+    """the hypotheses of C10_indent_partial / C10_shape_partial observed on a real run: -> None | what fails
+    separated: two non-empty white-space runs are never consumed without a code token between them;
+    no_end: a run that reaches the end of the token list is the last one; codes_ok: a code token's text is not
+    empty, does not begin with a line feed, does not end in a blank or a line feed"""
+    from pico8.lua import lexer
+    prev_end = None
+    for k, (a, b) in enumerate(order):
+        if prev_end is not None and a <= prev_end:
+            return 'separated: runs [..%d) and [%d..%d) are adjacent' % (prev_end, a, b)
+        if b == len(tokens) and k != len(order) - 1:
+            return 'no_end: a run reaching the end is followed by another'
+        prev_end = b
+    for t in tokens:
+        if isinstance(t, (lexer.TokSpace, lexer.TokNewline, lexer.TokComment)):
+            continue
+        c = bytes(t.code)
+        if not c or c[0] == 10 or c[-1] in (32, 10):
+            return 'codes_ok: token code %r' % c[:20]
+    return None
 
 
 def _short_if_token_ranges(root):
@@ -430,6 +457,7 @@ def luafmt(src, w, record=None, link=None):
         cls = _recording_writer()
         cls.calls = record
         cls.link = [] if link is not None else None
+        cls.order = [] if link is not None else None
     try:
         l = lua.Lua.from_lines([src], version=8)
         out = b''.join(l.to_lines(writer_cls=cls, writer_args={'indentwidth': w}))
@@ -438,6 +466,7 @@ def luafmt(src, w, record=None, link=None):
             for k, ch in enumerate(src):
                 if ch == 10:
                     starts.append(k + 1)
+            link.append(('hyp', _chunk_hypotheses(l.tokens, cls.order)))
             short = _short_if_token_ranges(l.root)
             for idx, ind in cls.link:
                 t = l.tokens[idx]
@@ -764,6 +793,15 @@ def run_cases(cases, ctx):
         reqs, owners = [], []
         for c, o in zip(cases, obs):
             if c['kind'] == 'prog' and o['outs'][0][0] == 'OK' and o.get('link'):
+                hyp = [p[1] for p in o['link'] if p[0] == 'hyp']
+                o['link'] = [p for p in o['link'] if p[0] != 'hyp']
+                for h in hyp:
+                    bump('chunk-hypotheses(separated,no_end,codes_ok):' + ('hold' if h is None else 'FAIL ' + h))
+                    if h is not None and not any(d.get('summary', {}).get('kind') == 'hyp' for d in disagreements):
+                        disagreements.append({'case': c, 'summary': {'kind': 'hyp'},
+                                              'difference': 'a hypothesis of C10_indent_partial fails on a real luafmt run: ' + h})
+                if not o['link']:
+                    continue
                 reqs.append('link %s %s' % (c['srcs'][0], ','.join('%d:%d' % (p[0], p[1]) for p in sorted(set(o['link'])))))
                 owners.append((c, o))
         ans = lib.run_driver_parallel(ctx['monitor_exe'], reqs) if reqs else []
